@@ -23,6 +23,7 @@ type funcResult struct {
 	Err   string
 	Trust []string
 	Paths int
+	Cone  bool // verified because it is in the callee cone of the property, not because it is claimed for it
 }
 
 // verifyFunction generates all obligations of one function under contract.
@@ -440,6 +441,7 @@ type options struct {
 	keep                       bool
 	all                        bool
 	scratch bool
+	nocone  bool
 }
 
 func parseOpts(args []string) *options {
@@ -454,6 +456,7 @@ func parseOpts(args []string) *options {
 	fs.IntVar(&o.workers, "workers", runtime.NumCPU(), "parallel solver processes")
 	fs.BoolVar(&o.keep, "keep", false, "keep scripts of failed obligations under verif/out")
 	fs.BoolVar(&o.all, "all", false, "all properties")
+	fs.BoolVar(&o.nocone, "nocone", false, "verify only the functions claimed for the property, not their callee cone")
 	fs.BoolVar(&o.scratch, "scratch", false, "corpus run on a scratch copy: write neither evidence nor replay files under verif")
 	fs.Parse(args)
 	if t := os.Getenv("VERIF_TIER"); t != "" && o.tier == "" {
@@ -526,24 +529,60 @@ func generate(o *options) (*runOutput, error) {
 	t1 := time.Now()
 	fns := w.repoFunctions()
 	tt := newTypeTable()
-	for _, key := range sortedKeys(specs.Contracts) {
-		c := specs.Contracts[key]
-		if c.Trusted || c.IsMethod || strings.Contains(key, "#") || strings.HasPrefix(key, "functype ") || strings.HasPrefix(key, "fieldfunc ") {
-			continue
-		}
-		if !isRepoPkg(c.Pkg.PkgPath) {
-			continue
-		}
-		eff := c
+	effOf := func(key string, c *Contract) *Contract {
 		if c.Implement != "" {
 			if i := strings.LastIndex(key, "."); i >= 0 {
 				if ic := specs.Contracts["("+qualifyTypeName(c.Implement, c.Pkg, w)+")"+key[i:]]; ic != nil {
-					eff = mergeContracts(c, ic, "")
+					return mergeContracts(c, ic, "")
 				}
 			}
 		}
+		return c
+	}
+	verifiable := func(key string, c *Contract) bool {
+		if c.Trusted || c.IsMethod || strings.Contains(key, "#") || strings.HasPrefix(key, "functype ") || strings.HasPrefix(key, "fieldfunc ") {
+			return false
+		}
+		return isRepoPkg(c.Pkg.PkgPath)
+	}
+	// Callee cone: a property's check also verifies every function under contract that the functions claimed for the
+	// property can reach (static calls, interface dispatch to repository implementations, closures). A change inside a
+	// callee is only noticed through the callee's own obligations, so they belong to every property that rests on them.
+	cone := map[string]bool{}
+	if !o.nocone && o.prop != "ANY" && o.prop != "" {
+		g := buildTermGraph(w)
+		var work []string
+		for _, key := range sortedKeys(specs.Contracts) {
+			c := specs.Contracts[key]
+			if verifiable(key, c) && contractMentions(effOf(key, c), o.prop) {
+				work = append(work, key)
+			}
+		}
+		seen := map[string]bool{}
+		for len(work) > 0 {
+			k := work[len(work)-1]
+			work = work[:len(work)-1]
+			if seen[k] {
+				continue
+			}
+			seen[k] = true
+			cone[k] = true
+			for n := range g.edges[k] {
+				if !strings.HasPrefix(n, "dyn:") && !seen[n] {
+					work = append(work, n)
+				}
+			}
+		}
+	}
+	for _, key := range sortedKeys(specs.Contracts) {
+		c := specs.Contracts[key]
+		if !verifiable(key, c) {
+			continue
+		}
+		eff := effOf(key, c)
 		terminationCone := hasProp(specs.TerminationProps, o.prop) && (eff.Terminates || len(eff.Decreases) > 0)
-		if o.prop != "ANY" && !contractMentions(eff, o.prop) && !terminationCone {
+		inCone := cone[key] && !contractMentions(eff, o.prop)
+		if o.prop != "ANY" && !contractMentions(eff, o.prop) && !terminationCone && !inCone {
 			continue
 		}
 		if o.fn != "" && !strings.Contains(key, o.fn) {
@@ -560,6 +599,16 @@ func generate(o *options) (*runOutput, error) {
 			// local of the function makes the whole contract well-formed again, verify against that binding and say so
 			if alt := rebind(w, specs, tt, fn, c, m[1]); alt != nil {
 				res = alt
+			}
+		}
+		if inCone {
+			// obligations attributed by the function's own property list (not by a per-clause list) also count for
+			// the property whose cone the function is in
+			res.Cone = true
+			for _, ob := range res.Obls {
+				if sameProps(ob.Props, eff.Props) || len(ob.Props) == 0 {
+					ob.Props = unionProps(ob.Props, []string{o.prop})
+				}
 			}
 		}
 		out.results = append(out.results, res)
@@ -629,4 +678,24 @@ func writeJSON(path string, v any) error {
 	}
 	os.MkdirAll(filepath.Dir(path), 0o755)
 	return os.WriteFile(path, append(b, '\n'), 0o644)
+}
+
+
+func sameProps(a, b []string) bool {
+	ma, mb := map[string]bool{}, map[string]bool{}
+	for _, x := range a {
+		ma[x] = true
+	}
+	for _, x := range b {
+		mb[x] = true
+	}
+	if len(ma) != len(mb) {
+		return false
+	}
+	for x := range ma {
+		if !mb[x] {
+			return false
+		}
+	}
+	return true
 }
